@@ -131,6 +131,32 @@ func markerStores(fn *ssa.Function, field *types.Var, val bool, must bool) []ssa
 	return out
 }
 
+// flagReadCalls: the reads of an atomic bool flag in fn — direct Load calls, and calls of a same-package bool predicate
+// that reads the flag (e.g. `stoppedBySystem(rp)` = shutdown flag && no user stop): the predicate's false edge is what the
+// code branches on, and the rules that ask for "behind the !flag edge" accept it together with the other marker's edge.
+func flagReadCalls(fn *ssa.Function, field *types.Var) []ssa.CallInstruction {
+	out := atomicCalls(fn, field, "Load")
+	for _, b := range fn.Blocks {
+		for _, in := range b.Instrs {
+			ci, ok := in.(ssa.CallInstruction)
+			if !ok || ci.Value() == nil {
+				continue
+			}
+			h := ci.Common().StaticCallee()
+			if h == nil || h.Pkg != fn.Pkg || len(h.Blocks) == 0 {
+				continue
+			}
+			if bt, ok := ci.Value().Type().Underlying().(*types.Basic); !ok || bt.Kind() != types.Bool {
+				continue
+			}
+			if len(atomicCalls(h, field, "Load")) > 0 {
+				out = append(out, ci)
+			}
+		}
+	}
+	return out
+}
+
 func updateStatusCalls(c *Ctx, r string, fn *ssa.Function, rel string) []ssa.CallInstruction {
 	m := c.W.LookupFunc(rel, "PipelineService.UpdateStatus")
 	if m == nil {
@@ -207,6 +233,8 @@ func runC10(c *Ctx) {
 	c10R11(c)
 	c10R12(c)
 	c10R13(c)
+	c10R14(c)
+	c10R15(c)
 	c07R4As(c, c.R.Rule("R9", "K3 (= C07.R4) the DLQ's fatal causes: in both engines a nack the window refuses is a fatal error when the DLQ is enabled, and a v2 DLQ write failure — a failed call or a negative per-record ack — is fatal", 6))
 }
 
@@ -400,7 +428,7 @@ func c10R8As(c *Ctx, r string) {
 						}
 					}
 				}
-				for _, l := range atomicCalls(fn, t.f, "Load") {
+				for _, l := range flagReadCalls(fn, t.f) {
 					afterWait := false
 					for _, wi := range waits {
 						if kit.InstrDominates(wi, l) {
@@ -532,7 +560,7 @@ func c10R1As(c *Ctx, r string) {
 				name string
 			}{{shut, "isGracefulShutdown"}, {intent, "intentionalStop"}} {
 				g := kit.NewGates()
-				for _, l := range atomicCalls(cl, t.f, "Load") {
+				for _, l := range flagReadCalls(cl, t.f) {
 					g.AddEdges(kit.CondEdges(l.Value(), false), "!"+t.name)
 				}
 				c.Dominated(r, rel+": recovery never after "+t.name, asInstrs(recCalls), g, "the !"+t.name+".Load() edge")
@@ -978,33 +1006,9 @@ func c10R5(c *Ctx) {
 			c.R.Fail(r, "stopRunnablePipeline: worker stops", c.Pos(fn.Pos()), "no Worker.Stop call found")
 		}
 		c.Dominated(r, "stopRunnablePipeline: marker set before any worker is stopped", spawns, g, "intentionalStop.Store(true)")
-		// F54: a graceful stop that armed nothing (its deadline ran out) takes back only its OWN request: wherever
-		// the marker is cleared in the package, it is behind a "no other stop request holds it" test — a counter of
-		// the run compared with zero (or the clear is a CompareAndSwap owned by the caller) — never unconditional
-		if p2 := c.W.Pkg(pLife2); p2 != nil {
-			T := c.W.LookupType(pLife2, "runnablePipeline")
-			nClr := 0
-			for _, ff := range c.W.AllFuncs(c.W.SSA[p2.Types]) {
-				for _, st := range atomicCalls(ff, intent, "Store") {
-					if !kit.IsBoolConst(st.Common().Args[1], false) {
-						continue
-					}
-					nClr++
-					gz := kit.NewGates()
-					if T != nil {
-						stt := T.Underlying().(*types.Struct)
-						for i := 0; i < stt.NumFields(); i++ {
-							f := stt.Field(i)
-							if b, ok := f.Type().Underlying().(*types.Basic); ok && b.Info()&types.IsInteger != 0 {
-								gz.AddEdges(kit.IntRangeEdges(ff, func(v ssa.Value) bool { return kit.IsFieldLoad(v, f) }, 0, 0), f.Name()+" == 0")
-							}
-						}
-					}
-					c.Dominated(r, kit.FuncKey(ff)+": the stop marker is cleared only when no other stop request holds it", []ssa.Instruction{st}, gz, "a `<request counter> == 0` edge")
-				}
-			}
-			c.R.Check(nClr >= 1, r, "v2: the stop marker can be taken back", c.Pos(fn.Pos()), "found", "no intentionalStop.Store(false) found in the arch-v2 lifecycle package", true)
-		}
+		// F54: a graceful stop that armed nothing (its deadline ran out) takes back only its OWN request
+		markerClearedOnlyWhenUnheld(c, r, "v2", pLife2, intent)
+
 		// "armed" means "Worker.Stop set the flag": the flag has no other writer (a worker whose Do already
 		// returned must not look armed, or the marker of a stop issued during the back-off is cleared again)
 		stopF := c.Field(r, pFunnel, "Worker", "stop")
@@ -1139,6 +1143,7 @@ func runC11(c *Ctx) {
 	c11R14(c)
 	c11R15(c)
 	c11R16(c)
+	c11R17(c)
 	c10R1As(c, c.R.Rule("R12", "K3 (= C10.R1) the stored status agrees with how the run ended: in the cleanup goroutine of both engines Degraded is written only for a fatal error or a failed recovery, and a stopped status only where the run's error is known not to be fatal", 14))
 	r11 := c.R.Rule("R11", "K5 frozen guarded-by table: pipeline.Instance.status is read and written only under statusLock (the status Start/Stop decide on is never a torn or stale read)", 2)
 	c.guardTable(r11, guardEntry{Rel: pPipe, Struct: "Instance", Mutex: "statusLock", Fields: []string{"status"}, Min: 2})
@@ -2052,22 +2057,15 @@ func c10R11As(c *Ctx, r string) {
 			}
 		}
 	}
+	for _, in := range markerStores(stop, marker, true, true) {
+		g.AddInstr(in, "marks the run (helper)")
+	}
 	c.Dominated(r, "v1 Stop: the run is marked as stopped by the user before the nodes are asked to stop", asInstrs(kit.CallsTo(stop, Set(sg))), g, "rp.intentionalStop.Store/CompareAndSwap(…, true)")
-	// the mark is taken back only by the call that set it (F42's CompareAndSwap): a refused graceful stop must not
-	// erase the mark of an earlier ACCEPTED stop — a force stop during the back-off, whose Kill is a no-op on the
-	// dead tomb, is protected by nothing else
-	gOwn := kit.NewGates()
-	for _, cas := range atomicCalls(stop, marker, "CompareAndSwap") {
-		a := cas.Common().Args
-		if len(a) == 3 && kit.IsBoolConst(a[1], false) && kit.IsBoolConst(a[2], true) {
-			gOwn.AddEdges(kit.CondEdges(cas.Value(), true), "this call set the marker")
-		}
-	}
-	for _, st := range atomicCalls(stop, marker, "Store") {
-		if kit.IsBoolConst(st.Common().Args[1], false) {
-			c.Dominated(r, "v1 Stop: the marker is cleared only by the call that set it", []ssa.Instruction{st}, gOwn, "the CompareAndSwap(false, true) success edge")
-		}
-	}
+	// the mark is taken back only when no OTHER accepted stop holds it (F81: a failed graceful stop erased the mark of a
+	// force stop accepted meanwhile, whose Kill is a no-op on a tomb that is already dying): wherever the marker is
+	// cleared, it is behind the success edge of that call's own CompareAndSwap(false,true) AND no other stop can have
+	// marked in between — i.e. a request counter compared with zero
+	markerClearedOnlyWhenUnheld(c, r, "v1", pLife, marker)
 	// cleanup goroutine: recovery only for an unmarked run
 	n := 0
 	for _, lit := range kit.WithAnon(run) {
@@ -2379,4 +2377,328 @@ func c11R16(c *Ctx) {
 		}
 	}
 	c.R.Check(ok, r, "ProcessorTask.Open: a failed Open tears the processor down", c.Pos(opens[0].Pos()), "Teardown on the failure edge", "ProcessorTask.Open returns the Open error without tearing the processor down: its plugin stays dispensed and its Instance.running flag stays true (Worker.Open's rollback only closes the tasks that opened BEFORE the failing one) — Update, Delete and the next start of the pipeline are refused with 'processor already running' until Conduit restarts", true)
+}
+
+// markerClearedOnlyWhenUnheld: wherever the run's stop marker is cleared in the package, the clear lies behind a "no
+// other stop request holds it" test — a counter field of the run compared with zero. (A CompareAndSwap-owned clear is
+// not enough: another stop may have marked — as a no-op store — between this call's swap and its clear.)
+func markerClearedOnlyWhenUnheld(c *Ctx, r, eng, rel string, marker *types.Var) {
+	p := c.W.Pkg(rel)
+	T := c.W.LookupType(rel, "runnablePipeline")
+	if p == nil || marker == nil {
+		return
+	}
+	nClr := 0
+	for _, ff := range c.W.AllFuncs(c.W.SSA[p.Types]) {
+		for _, st := range atomicCalls(ff, marker, "Store") {
+			if !kit.IsBoolConst(st.Common().Args[1], false) {
+				continue
+			}
+			nClr++
+			gz := kit.NewGates()
+			if T != nil {
+				stt := T.Underlying().(*types.Struct)
+				for i := 0; i < stt.NumFields(); i++ {
+					f := stt.Field(i)
+					if b, ok := f.Type().Underlying().(*types.Basic); ok && b.Info()&types.IsInteger != 0 {
+						gz.AddEdges(kit.IntRangeEdges(ff, func(v ssa.Value) bool { return kit.IsFieldLoad(v, f) }, 0, 0), f.Name()+" == 0")
+					}
+				}
+			}
+			c.Dominated(r, kit.FuncKey(ff)+": the stop marker is cleared only when no other stop request holds it", []ssa.Instruction{st}, gz, "a `<request counter> == 0` edge")
+		}
+	}
+	c.R.Check(nClr >= 1, r, eng+": the stop marker can be taken back", "", "found", "no intentionalStop.Store(false) found in "+rel, true)
+}
+
+// c10R14: F82/F83 (both regressions or leftovers of earlier repairs, found by an audit of the fix commits).
+//
+//	F82  a processor error on a piece of a split run whose sibling was filtered: since the filtered piece keeps its flag
+//	     (F27) the run's nack is forwarded later, from inside an Ack vote of the run ledger — past the only place that
+//	     marked an unabsorbed processor error fatal (the acker.Nack call site in doTaskAttempt). The ledger remembers
+//	     that a processor nacked the run and returns a fatal error when the parent does not absorb it.
+//	F83  Worker.Nack: when the DLQ returned a (fatal) error together with n > 0 and the source ack of the dead-lettered
+//	     records fails as well, the DLQ error must not be dropped for the ack error (the fatal classification is lost
+//	     and the pipeline restarts with a fresh nack window).
+func c10R14(c *Ctx) {
+	r := c.R.Rule("R14", "K3 v2 fatal causes survive the late paths: the run ledger returns FatalError behind the failure edge of the parent Nack when the run was nacked by a processor (splitRun flag set on the ProcessorTask edge of doTaskAttempt), and Worker.Nack joins the DLQ error with a failing source-ack error instead of dropping it", 3)
+	fatal := c.Fn(r, pCerrors, "FatalError")
+	nackFam := c.Fam(c.Fn(r, pFunnel, "ackNacker.Nack"))
+	p := c.W.Pkg(pFunnel)
+	T := c.W.LookupType(pFunnel, "splitRun")
+	if fatal == nil || p == nil || T == nil {
+		c.R.Unresolved(r, "cerrors.FatalError / funnel.splitRun")
+		return
+	}
+	// the flag: a bool field of splitRun whose true edge guards a FatalError return behind a failed parent Nack
+	st := T.Underlying().(*types.Struct)
+	var flag *types.Var
+	for _, fn := range c.W.AllFuncs(c.W.SSA[p.Types]) {
+		if n, ok := derefNamedRecv(fn); !ok || n != "runAckNacker" {
+			continue
+		}
+		for _, call := range kit.CallsTo(fn, nackFam) {
+			for _, e := range kit.FailEdges(call) {
+				for i := 0; i < st.NumFields(); i++ {
+					f := st.Field(i)
+					if b, ok := f.Type().Underlying().(*types.Basic); !ok || b.Kind() != types.Bool {
+						continue
+					}
+					for _, ld := range kit.FieldLoads(fn, f) {
+						for _, fe := range kit.CondEdges(ld, true) {
+							for _, ret := range kit.Returns(fn) {
+								inFail := ret.Block() == e.To || e.To.Dominates(ret.Block())
+								inFlag := ret.Block() == fe.To || fe.To.Dominates(ret.Block())
+								if cl, ok := kit.RetVal(ret, len(ret.Results)-1).(*ssa.Call); ok && inFail && inFlag && kit.CalleeOf(cl.Common()) == fatal {
+									flag = f
+								}
+							}
+						}
+					}
+				}
+			}
+		}
+	}
+	if flag == nil {
+		c.R.Fail(r, "runAckNacker: a run nacked by a processor fails fatally when the parent does not absorb it", "", "the run ledger forwards a completed nacked run to the parent and returns the parent's error as is: when a processor nacked a piece of a split run whose sibling was filtered, the nack is forwarded from inside a later Ack vote, past doTaskAttempt's 'processor error whose nack fails is fatal' — with the DLQ disabled the pipeline is restarted for ever instead of degraded")
+	} else {
+		c.R.Pass(r, "runAckNacker: a run nacked by a processor fails fatally when the parent does not absorb it", "", "splitRun."+flag.Name(), true)
+		// set on the ProcessorTask edge of doTaskAttempt
+		if fn := c.SSA(r, pFunnel, "(*Worker).doTaskAttempt"); fn != nil {
+			set := false
+			procT := c.W.LookupType(pFunnel, "ProcessorTask")
+			for _, b := range fn.Blocks {
+				for _, in := range b.Instrs {
+					ci, ok := in.(ssa.CallInstruction)
+					if !ok {
+						continue
+					}
+					h := ci.Common().StaticCallee()
+					if h == nil || h.Pkg != fn.Pkg {
+						continue
+					}
+					sets := false
+					for _, s2 := range kit.FieldStores(h, flag) {
+						if kit.IsBoolConst(s2.Val, true) {
+							sets = true
+						}
+					}
+					if !sets {
+						continue
+					}
+					for _, ta := range kit.Instrs(fn, func(x ssa.Instruction) bool { _, ok := x.(*ssa.TypeAssert); return ok }) {
+						t := ta.(*ssa.TypeAssert)
+						if pt, ok := t.AssertedType.(*types.Pointer); ok && procT != nil && types.Identical(pt.Elem(), procT) && kit.InstrDominates(t, in) {
+							set = true
+						}
+					}
+				}
+			}
+			c.R.Check(set, r, "doTaskAttempt: a nack issued by a processor task marks the run", c.Pos(fn.Pos()), "marked behind the ProcessorTask assertion", "doTaskAttempt does not mark the split runs of a batch a ProcessorTask nacked: the ledger cannot tell a processor's nack from a destination's", true)
+		}
+	}
+	// F83
+	if fn := c.SSA(r, pFunnel, "(*Worker).Nack"); fn != nil {
+		srcAck := c.Fam(c.Fn(r, pFunnel, "Source.Ack"))
+		dlqNack := Set(c.Fn(r, pFunnel, "(*DLQ).Nack"))
+		join := c.W.LookupObj(pCerrors, "Join")
+		ok := false
+		for _, ac := range kit.CallsTo(fn, srcAck) {
+			for _, dc := range kit.CallsTo(fn, dlqNack) {
+				derr := kit.ErrResult(dc)
+				for _, ae := range kit.FailEdges(ac) {
+					for _, de := range kit.NilEdges(derr, false) {
+						for _, b := range fn.Blocks {
+							if !((b == ae.To || ae.To.Dominates(b)) && (b == de.To || de.To.Dominates(b))) {
+								continue
+							}
+							for _, in := range b.Instrs {
+								if cl, isC := in.(*ssa.Call); isC {
+									if f := kit.CalleeOf(cl.Common()); f != nil && f.Name() == "Join" {
+										ok = true
+									}
+									if u, isU := cl.Call.Value.(*ssa.UnOp); isU {
+										if g, isG := u.X.(*ssa.Global); isG && join != nil && g.Object() == join {
+											ok = true
+										}
+									}
+								}
+							}
+						}
+					}
+				}
+			}
+		}
+		c.R.Check(ok, r, "Worker.Nack: a failing source ack does not drop the DLQ error", c.Pos(fn.Pos()), "joined", "Worker.Nack returns only the source-ack error when the DLQ had also returned an error (n > 0 with the threshold exceeded, or a partial DLQ write): the fatal DLQ error is unreachable by Is/As, the failure is classified transient, the pipeline is restarted with a fresh nack window and the record dead-lettered again", true)
+	}
+}
+
+func derefNamedRecv(fn *ssa.Function) (string, bool) {
+	if fn == nil || fn.Signature.Recv() == nil {
+		return "", false
+	}
+	n, ok := derefNamed(fn.Signature.Recv().Type())
+	if !ok {
+		return "", false
+	}
+	return n.Obj().Name(), true
+}
+
+// c10R15: F84/F85 (interactions between the stop-marker repairs of the arch-v2 engine).
+//
+//	F84  "ends in the matching stopped status": a pipeline the USER stopped stays UserStopped when Conduit shuts down
+//	     before the stop is finalized (during the back-off, or while the drain is still tearing down) — otherwise the next
+//	     boot starts it again. StopAll marks the same per-run marker as a user stop, so the run has to remember who
+//	     stopped it: SystemStopped is written only behind a predicate that reads the shutdown flag AND a per-run
+//	     user-stop flag.
+//	F85  a graceful stop that found every worker already armed (the sources had exhausted themselves) is an accepted
+//	     stop, not a refused one: the request is withdrawn only when nothing was armed AND something refused to arm.
+func c10R15(c *Ctx) {
+	r := c.R.Rule("R15", "K3 v2 who stopped the run: StatusSystemStopped is written (and errGracefulShutdownDuringRecovery returned) only behind a predicate that reads both the service's shutdown flag and a per-run user-stop flag; stopRunnablePipeline withdraws a stop request only behind len(armed)==0 and len(unarmed)>0", 4)
+	shut := c.Field(r, pLife2, "Service", "isGracefulShutdown")
+	intent := c.Field(r, pLife2, "runnablePipeline", "intentionalStop")
+	T := c.W.LookupType(pLife2, "runnablePipeline")
+	p := c.W.Pkg(pLife2)
+	if shut == nil || intent == nil || T == nil || p == nil {
+		return
+	}
+	// the predicate: a bool function loading the shutdown flag and another atomic bool of the run
+	var preds []*types.Func
+	st := T.Underlying().(*types.Struct)
+	for _, fn := range c.W.AllFuncs(c.W.SSA[p.Types]) {
+		if fn.Parent() != nil || fn.Signature.Results().Len() != 1 || len(atomicCalls(fn, shut, "Load")) == 0 {
+			continue
+		}
+		if bt, ok := fn.Signature.Results().At(0).Type().Underlying().(*types.Basic); !ok || bt.Kind() != types.Bool {
+			continue
+		}
+		for i := 0; i < st.NumFields(); i++ {
+			f := st.Field(i)
+			if f == intent || !strings.HasSuffix(f.Type().String(), "atomic.Bool") {
+				continue
+			}
+			if len(atomicCalls(fn, f, "Load")) > 0 {
+				if obj, ok := fn.Object().(*types.Func); ok {
+					preds = append(preds, obj)
+				}
+			}
+		}
+	}
+	if len(preds) == 0 {
+		c.R.Fail(r, "v2: the run remembers whether a user stopped it", "", "no predicate reads the shutdown flag together with a per-run user-stop flag: the final status is chosen from the service-wide isGracefulShutdown alone, so a pipeline the user stopped (Stop returned nil) ends SystemStopped when Conduit shuts down before the stop is finalized — and is started again at the next boot")
+		return
+	}
+	c.R.Pass(r, "v2: the run remembers whether a user stopped it", "", "predicate "+preds[0].Name(), true)
+	run := c.SSA(r, pLife2, "(*Service).runPipeline")
+	n := 0
+	if run != nil {
+		for _, lit := range kit.WithAnon(run) {
+			for _, us := range updateStatusCalls(c, r, lit, pLife2) {
+				if !statusIs(c, statusArg(us), "StatusSystemStopped") {
+					continue
+				}
+				n++
+				g := kit.NewGates()
+				for _, pc := range kit.CallsTo(lit, Set(preds...)) {
+					g.AddEdges(kit.CondEdges(pc.Value(), true), preds[0].Name()+"()")
+				}
+				// or behind the sentinel StartWithBackoff returns for it (which itself is returned behind the predicate)
+				for _, call := range cerrorsIsCalls(c, lit) {
+					a := call.Common().Args
+					if len(a) == 2 {
+						if u, ok := a[1].(*ssa.UnOp); ok {
+							if gl, ok := u.X.(*ssa.Global); ok && strings.Contains(gl.Name(), "GracefulShutdown") {
+								g.AddEdges(kit.CondEdges(call, true), "recovery error is "+gl.Name())
+							}
+						}
+					}
+				}
+				c.Dominated(r, "v2 cleanup: SystemStopped only when no user stopped the run", []ssa.Instruction{us}, g, "the "+preds[0].Name()+"() edge")
+			}
+		}
+	}
+	if swb := c.SSA(r, pLife2, "(*Service).StartWithBackoff"); swb != nil {
+		for _, ret := range kit.Returns(swb) {
+			if u, ok := kit.RetVal(ret, 0).(*ssa.UnOp); ok {
+				if gl, ok := u.X.(*ssa.Global); ok && strings.Contains(gl.Name(), "GracefulShutdown") {
+					n++
+					g := kit.NewGates()
+					for _, pc := range kit.CallsTo(swb, Set(preds...)) {
+						g.AddEdges(kit.CondEdges(pc.Value(), true), preds[0].Name()+"()")
+					}
+					c.Dominated(r, "v2 StartWithBackoff: the shutdown sentinel only when no user stopped the run", []ssa.Instruction{ret}, g, "the "+preds[0].Name()+"() edge")
+				}
+			}
+		}
+	}
+	c.R.Check(n >= 2, r, "v2: SystemStopped decisions", "", "found", "fewer SystemStopped decisions found than on the reference tree", true)
+	// F85
+	if fn := c.SSA(r, pLife2, "(*Service).stopRunnablePipeline"); fn != nil {
+		wd := markerStores(fn, intent, false, false)
+		gZero := kit.NewGates().AddEdges(kit.LenEdges(fn, nil, 0, 0), "len(..) == 0")
+		gSome := kit.NewGates().AddEdges(kit.LenEdges(fn, nil, 1, -1), "len(..) > 0")
+		c.Dominated(r, "stopRunnablePipeline: a stop request is withdrawn only when no worker was armed", wd, gZero, "a len(armedSources) == 0 edge")
+		c.Dominated(r, "stopRunnablePipeline: a stop request is withdrawn only when some worker refused to arm", wd, gSome, "a len(unarmedSources) > 0 edge")
+	}
+}
+
+// cerrorsIsCalls: calls of cerrors.Is (a package-level function variable) / errors.Is in fn.
+func cerrorsIsCalls(c *Ctx, fn *ssa.Function) []*ssa.Call {
+	isVar := c.W.LookupObj(pCerrors, "Is")
+	errorsIs := c.W.ExtObj("errors", "Is")
+	var out []*ssa.Call
+	for _, b := range fn.Blocks {
+		for _, in := range b.Instrs {
+			x, ok := in.(*ssa.Call)
+			if !ok {
+				continue
+			}
+			if u, ok := x.Call.Value.(*ssa.UnOp); ok {
+				if g, ok := u.X.(*ssa.Global); ok && isVar != nil && g.Object() == isVar {
+					out = append(out, x)
+				}
+			}
+			if f := x.Call.StaticCallee(); f != nil && errorsIs != nil && f.Object() == errorsIs {
+				out = append(out, x)
+			}
+		}
+	}
+	return out
+}
+
+// c11R17: F88 (known finding). "At most one run of a pipeline exists at any time": Start checks the status for Running,
+// but the status only becomes Running at the end of runPipeline and nothing serialises Start (the orchestrator still
+// says `// TODO lock pipeline`): two overlapping Start calls — or a user Start racing a recovery restart — both build
+// and run; the second is published over the live first one, which is then unreachable by Stop/WaitPipeline/StopAll.
+func c11R17(c *Ctx) {
+	r := c.R.Rule("R17", "K5 v1 Start is serialised per pipeline: a lock is held from the status check until the run is published (a Lock call dominates buildRunnablePipeline in Service.Start)", 1)
+	fn := c.SSA(r, pLife, "(*Service).Start")
+	build := c.Fn(r, pLife, "(*Service).buildRunnablePipeline")
+	if fn == nil || build == nil {
+		return
+	}
+	g := kit.NewGates()
+	for _, b := range fn.Blocks {
+		for _, in := range b.Instrs {
+			if ci, ok := in.(ssa.CallInstruction); ok {
+				if f := kit.CalleeOf(ci.Common()); f != nil && f.Name() == "Lock" {
+					// not the publication mutex (held only around the map write)
+					if !fieldNamed(ci.Common().Args[0], "publishMu") && !strings.Contains(kit.PathOf(ci.Common().Args[0]), "publishMu") {
+						g.AddInstr(in, "per-pipeline start lock")
+					}
+				}
+			}
+		}
+	}
+	builds := asInstrs(kit.CallsToDeep(fn, Set(build)))
+	okAll := !g.Empty() && len(builds) > 0
+	for _, bi := range builds {
+		if bi.Parent() != fn {
+			continue
+		}
+		if pass, _ := kit.MustPass(bi, g); !pass {
+			okAll = false
+		}
+	}
+	c.R.Check(okAll, r, "v1 Start: the status check and the publication of the run happen under one per-pipeline lock", c.Pos(fn.Pos()), "locked", "Service.Start checks the status and builds/runs/publishes the run without a per-pipeline lock: two overlapping Start calls (or a user Start racing a recovery restart) both pass the check — the status only becomes Running at the end of runPipeline — and both run; the second is published over the live first run, which keeps moving records but is unreachable by Stop, WaitPipeline, StopAll and Wait", true)
 }
